@@ -20,15 +20,24 @@ MC_Mismatch
 quick   = table: full product to depth 2; arrival: every core x form vector in every top alone and in the three plainest
           statement positions under start, plus a seeded 1/MOD sample of all chains of length 2.
 thorough = table: depth 3 (chains of 3 end in the canonical tops); arrival: all chains of length <= 2, plus every ordered
-          pair of different arrival forms in the plain positions; processed in slices.
+          pair of different arrival forms in one plain position; processed in slices.
 """
 import hashlib
 import json
 import os
 import sys
+import time
 import vlib
 
 PID = "C03"
+_T0 = time.time()
+
+
+def stage(name):
+    """progress / timing line on stderr (VERIF_TIMING=1)"""
+    if os.environ.get("VERIF_TIMING"):
+        print("[C03 %6.1fs] %s" % (time.time() - _T0, name), file=sys.stderr)
+
 VIOLATION_WHYS = ("planted-accepted", "bytes-written", "no-error-reported", "panic")
 
 
@@ -49,7 +58,7 @@ def tail_of(src):
 def plan(tier):
     if tier == "quick":
         return {"DEPTH": 2, "FULL": 0, "PAIRS": 0, "MOD": 59, "NSLICE": 1}
-    return {"DEPTH": 3, "FULL": 1, "PAIRS": 1, "MOD": 1, "NSLICE": 12}
+    return {"DEPTH": 3, "FULL": 1, "PAIRS": 1, "MOD": 1, "NSLICE": 5}
 
 
 def validate(wd, name, tf, env, complete, workers=None):
@@ -69,6 +78,7 @@ def run(ctx):
     ev = vlib.Evidence(PID, tier, "model_checking")
     verdicts = vlib.Verdicts(PID)
     vlib.build_harness()
+    stage("harness library built")
     pf = os.path.join(wd, "prelude.json")
     cf = os.path.join(wd, "cases.ndjson")
     tf = os.path.join(wd, "trace.ndjson")
@@ -107,6 +117,7 @@ def run(ctx):
             r = vlib.tlc("MC_Mismatch", wd=wd, env=dict(env, MODE="emit"), tags=("REPLAY", "PRELUDE", "UNIVERSE"),
                          timeout=2400, xmx="12g", coverage=False, out_file=os.path.join(wd, "tlc-emit.out"))
             vlib.require_tlc_ok(r, "MC_Mismatch emit (spec-level sanity of the universe), slice %s" % sl)
+            stage("emit done (slice %s)" % sl)
             prelude = [p for (t, p) in r.records if t == "PRELUDE"][0]
             universe = [p for (t, p) in r.records if t == "UNIVERSE"][0]
             byid = {}
@@ -116,11 +127,12 @@ def run(ctx):
             cases = list(byid.values())
             del byid
             r.records = []
-            if len(cases) != universe["cases"]:
-                vlib.tool_error("TLC printed %d cases, the universe (slice %s) has %d" % (len(cases), sl, universe["cases"]))
-            # vacuity: one Emit step per case (coverage is off, so count the generated states: initial + successor)
-            if r.generated < 2 * len(cases):
-                vlib.tool_error("vacuity: TLC generated %d states for %d cases" % (r.generated, len(cases)))
+            ncases = universe["table_cases"] + universe["arrival_cases"]
+            if len(cases) != ncases:
+                vlib.tool_error("TLC printed %d cases, the universe (slice %s) has %d" % (len(cases), sl, ncases))
+            # vacuity: one Emit step per case (coverage is off, so count the states: one per key, one per case)
+            if r.distinct != universe["keys"] + len(cases):
+                vlib.tool_error("vacuity: TLC found %d states for %d keys and %d cases" % (r.distinct, universe["keys"], len(cases)))
             universe0 = universe0 or universe
             tot["states"] += r.distinct
             tot["transitions"] += r.generated
@@ -130,7 +142,9 @@ def run(ctx):
 
         json.dump(prelude, open(pf, "w"))
         vlib.write_ndjson(cf, cases)
+        stage("cases written")
         vlib.harness("c03", ["record", pf, cf, tf, sf], timeout=3000)
+        stage("recorded")
         recs = vlib.read_ndjson(tf)
         srcs = vlib.read_ndjson(sf)
         if len(recs) != len(cases):
@@ -138,6 +152,7 @@ def run(ctx):
         v, rejects = validate(wd, "validate", tf, env, complete=not ctx.replay)
         if not ctx.replay and v.generated < 2 * len(recs):
             vlib.tool_error("vacuity: validation generated %d states for %d records" % (v.generated, len(recs)))
+        stage("validated")
         tot["states"] += v.distinct
         tot["transitions"] += v.generated
         tot["cases"] += len(recs)
@@ -188,6 +203,7 @@ def run(ctx):
             neg_material = (cases[::step][:90], prelude, env)
         del cases, recs, srcs
 
+    stage("slices done")
     # vacuity guards on the replayed universe
     n = tot["cases"]
     if base_rejected:
@@ -265,6 +281,7 @@ def run(ctx):
               "the printer renders the ASTs faithfully (an unfaithful rendering shows up as a rejected base or as identical base/planted text: both guarded)",
               "int < float is accepted by design (Cmp) and is not planted; an un-annotated function used at two incompatible types by two call "
               "sites is accepted by design (per-call instantiation) and is not planted")
+    stage("controls done")
     rc = verdicts.finish()
     ev.violations = len(verdicts.violations)
     ev.write()
